@@ -120,6 +120,8 @@ func (d *DistKeyGenerator) verifState(ps []VerifParty) VerifState {
 			v := "S"
 			if st == Complaint {
 				v = "C"
+			} else if st != Success {
+				v = "X" // a value outside the enum
 			}
 			r.Row = append(r.Row, verifKV{K: verifNew(ps, holder), V: v})
 		}
@@ -249,6 +251,8 @@ func (d *DistKeyGenerator) verifResps(ps []VerifParty, bundles []*ResponseBundle
 			st := "S"
 			if r.Status == Complaint {
 				st = "C"
+			} else if r.Status != Success {
+				st = "X" // a value outside the enum
 			}
 			v.Rs = append(v.Rs, verifKV{K: verifOld(ps, r.DealerIndex), V: st})
 		}
